@@ -45,6 +45,202 @@ theorem counts_of_ok (t : List Ev) (g : Snd) (h : (t.foldl sndStep g).bad = fals
           | (exfalso; exact Bool.noConfusion hb)
     exact fin e hb this
 
+/-! ### no upstream attempt after the response started -/
+
+/-- the event is a `ConnectionPool.NewStream` call (admitted or refused) -/
+def isNewStream : Ev → Bool
+  | .un _ => true
+  | .uf _ _ => true
+  | _ => false
+
+theorem sndStep_hdr_mono (g : Snd) (e : Ev) (h : g.hdr = true) : (sndStep g e).hdr = true := by
+  cases e <;> simp [sndStep, h]
+
+/-- once response headers were sent, a later `NewStream` makes the automaton reject the trace -/
+theorem foldl_attempt_bad (t : List Ev) (g : Snd) (h : g.hdr = true) (ha : t.any isNewStream = true) :
+    (t.foldl sndStep g).bad = true := by
+  induction t generalizing g with
+  | nil => simp at ha
+  | cons e r ih =>
+    simp only [List.any_cons, Bool.or_eq_true] at ha
+    simp only [List.foldl_cons]
+    by_cases he : isNewStream e = true
+    · apply foldl_bad_mono
+      cases e <;> simp [isNewStream] at he <;> simp [sndStep, h]
+    · rcases ha with ha | ha
+      · exact absurd ha he
+      · exact ih _ (sndStep_hdr_mono g e h) ha
+
+/-- in a trace accepted by the sender automaton nothing is sent upstream after the response headers -/
+theorem no_attempt_after_headers_of_ok (t1 t2 : List Ev) (st : Nat) (eos : Bool)
+    (h : (snd (t1 ++ Ev.dh st eos :: t2)).bad = false) : t2.any isNewStream = false := by
+  cases ha : t2.any isNewStream with
+  | false => rfl
+  | true =>
+    unfold snd at h
+    rw [List.foldl_append, List.foldl_cons] at h
+    have := foldl_attempt_bad t2 (sndStep (List.foldl sndStep Snd.init t1) (Ev.dh st eos)) (by simp [sndStep]) ha
+    rw [h] at this; cases this
+
+/-! ### an upstream reset after the response started -/
+
+/-- the worker handles an upstream reset that arrived after the response head was forwarded: no retry, the downstream
+stream is reset, the stream is cleaned -/
+theorem started_reset_finish (c : Cfg) (s : S) (hcl : s.cleaned = false) (how : c.oneway = false) (hur : s.upReset = true)
+    (hrst : s.respStarted = true) (hpd : s.procDone = false) (h6 : K6 s) :
+    (finishPhase c s).cleaned = true ∧ (finishPhase c s).running = false ∧
+    (finishPhase c s).trace = s.trace ++ [Ev.dr, Ev.log TimeoutExceptionCode s.flags] := by
+  rw [finishPhase_eq, processError_spec]
+  simp only [hcl, hur, how, Bool.false_eq_true, if_false, if_true]
+  have hgate : Gen.ProxyReset.retryGate s.resetReason (resetFlags c s) = false := by
+    rw [retryGate_eq]; simp [hrst]
+  have e1 : onUpstreamReset c s = resetDownstream c (cleanUp c s) := by
+    unfold onUpstreamReset
+    simp only [hgate, Bool.false_eq_true, if_false]
+    unfold onUpstreamResetFinish
+    simp only [resetNotReply_eq, cleanUp_respStarted, hrst, if_true]
+  rw [e1]
+  have key : ∀ g : S, g.cleaned = false → g.procDone = true → g.downReset = true → g.trace = s.trace ++ [Ev.dr] →
+      g.flags = s.flags →
+      (finishOf (peTail c g true)).cleaned = true ∧ (finishOf (peTail c g true)).running = false ∧
+      (finishOf (peTail c g true)).trace = s.trace ++ [Ev.dr, Ev.log TimeoutExceptionCode s.flags] := by
+    intro g g_cl g_pd g_dr g_tr g_fl
+    have : peTail c g true = (dsResetStream c g, some .End) := by unfold peTail; rw [if_pos g_dr]
+    rw [this]
+    simp only [finishOf]
+    rw [reenter_end]
+    unfold dsResetStream cleanStream
+    simp only [g_cl, Bool.false_eq_true, if_false]
+    refine ⟨cleanBody_cleaned c _, ?_, ?_⟩
+    · first | rfl | trivial
+    · have := cleanBody_trace_done c { g with respCode := TimeoutExceptionCode } g_pd
+      first
+        | (rw [this]; simp [g_tr, g_fl]; done)
+        | (show (cleanBody c { g with respCode := TimeoutExceptionCode }).trace = _
+           rw [this]; simp [g_tr, g_fl])
+  unfold resetDownstream
+  simp only [how, cleanUp_procDone, hpd, Bool.not_false, Bool.and_self, if_true]
+  cases hdl : s.downLive with
+  | true =>
+    simp only [cleanUp_downLive, hdl, if_true]
+    apply key <;> simp [dsOnResetStream, hcl]
+  | false =>
+    simp only [cleanUp_downLive, hdl, Bool.false_eq_true, if_false]
+    have hdr : s.downReset = true := by
+      rcases h6 hdl with h | h
+      · exact h
+      · rw [hcl] at h; cases h
+    apply key <;> simp [hcl, hdr]
+
+/-- from every reachable state in which an upstream reset is pending after the response started, at most two worker
+steps (the data phase is skipped when the response has only trailers) end the exchange: the client stream is reset, the
+access log is written, and NO new upstream attempt is made -/
+theorem started_reset_run (c : Cfg) (ar aq : Nat) (s : S) (h : Inv c ar aq s) (hrun : s.running = true)
+    (hur : s.upReset = true) (hrst : s.respStarted = true) :
+    (work c (work c s)).cleaned = true ∧ (work c (work c s)).running = false ∧
+    (work c (work c s)).trace = s.trace ++ [Ev.dr, Ev.log TimeoutExceptionCode s.flags] := by
+  have hcl := inv_not_cleaned h hrun
+  have hupp : upPhase s.phase = true := by
+    cases hu : upPhase s.phase with
+    | true => rfl
+    | false => have := h.k16 hcl hu; rw [hrst] at this; cases this
+  obtain ⟨_, hresp, hwhere, _, _, hmore, htr⟩ := h.k15 hcl hupp
+  have how : c.oneway = false := by
+    cases ho : c.oneway with
+    | false => rfl
+    | true => have := (h.k32 hcl ho).1; rw [hupp] at this; cases this
+  have hpd : s.procDone = false := by
+    cases hh : s.procDone with
+    | false => rfl
+    | true => have := h.k5 hh; rw [hcl] at this; cases this
+  obtain ⟨r, hr⟩ : ∃ r, s.resp = some r := by
+    cases hh : s.resp with
+    | none => simp [hh] at hresp
+    | some r => exact ⟨r, rfl⟩
+  have hnw : ∀ g : S, g.upReset = true → bodyWait g = false := by
+    intro g hg; simp [bodyWait, processDone, hg]
+  -- a finished worker does nothing more
+  have hdone : ∀ g : S, g.running = false → work c g = g := by
+    intro g hg; unfold work; simp [hg]
+  -- the step at the trailer phase
+  have hurt : ∀ g : S, g.running = true → g.phase = .UpRecvTrailer → g.resp = some r → r.hasTrailers = true → g.upReset = true →
+      work c g = finishPhase c g := by
+    intro g g1 g2 g3 g4 g5
+    unfold work
+    rw [if_neg (by simp [g1]), if_neg (by simp [hnw g g5])]
+    simp only [g2, g3, g4, if_true]
+    rw [if_pos (by simp [processDone, g5])]
+  rcases hwhere hur with hp | hp
+  · -- data phase
+    by_cases hd : r.hasData = true
+    · have e1 : work c s = finishPhase c s := by
+        unfold work
+        rw [if_neg (by simp [hrun]), if_neg (by simp [hnw s hur])]
+        simp only [hp, hr, hd, if_true]
+        rw [if_pos (by simp [processDone, hur])]
+      have := started_reset_finish c s hcl how hur hrst hpd h.k6
+      rw [e1, hdone _ this.2.1]
+      exact this
+    · simp only [Bool.not_eq_true] at hd
+      have ht : r.hasTrailers = true := by
+        have := hmore hp; simp [respHasMore, hr, hd] at this; exact this
+      have e1 : work c s = { s with phase := .UpRecvTrailer } := by
+        unfold work
+        rw [if_neg (by simp [hrun]), if_neg (by simp [hnw s hur])]
+        simp only [hp, hr, hd, Bool.false_eq_true, if_false, Phase.next]
+      rw [e1, hurt { s with phase := .UpRecvTrailer } hrun rfl hr ht hur]
+      have := started_reset_finish c { s with phase := .UpRecvTrailer } hcl how hur hrst hpd h.k6
+      exact this
+  · have ht : r.hasTrailers = true := by have := htr hp; simpa [respHasTrailers, hr] using this
+    have e1 := hurt s hrun hp hr ht hur
+    have := started_reset_finish c s hcl how hur hrst hpd h.k6
+    rw [e1, hdone _ this.2.1]
+    exact this
+
+/-- the worker waits for the rest of a streamed response: what holds then -/
+theorem bodyWait_facts (c : Cfg) (ar aq : Nat) (s : S) (h : Inv c ar aq s) (hw : bodyWait s = true) :
+    s.cleaned = false ∧ c.oneway = false ∧ s.respStarted = true ∧ s.urr = true ∧ 0 < liveCount s.streams ∧
+    s.upReset = false ∧ s.downReset = false := by
+  simp only [bodyWait, Bool.and_eq_true, Bool.or_eq_true, beq_iff_eq, Bool.not_eq_true'] at hw
+  obtain ⟨⟨⟨hrun, hp⟩, hopen⟩, hpd⟩ := hw
+  have hcl := inv_not_cleaned h hrun
+  have hupp : upPhase s.phase = true := by rcases hp with hp | hp <;> simp [hp, upPhase]
+  obtain ⟨hlc, _, _, _, hrst0, _, _⟩ := h.k15 hcl hupp
+  have hrst : s.respStarted = true := by rcases hp with hp | hp <;> (rw [hrst0, hp]; decide)
+  have how : c.oneway = false := by
+    cases ho : c.oneway with
+    | false => rfl
+    | true => have := (h.k32 hcl ho).1; rw [hupp] at this; cases this
+  have hpos : 0 < liveCount s.streams := by
+    cases hl0 : liveCount s.streams with
+    | succ n => omega
+    | zero =>
+      exfalso
+      -- the current stream is live, and in a two-way request every live stream is counted
+      simp only [bodyOpen] at hopen
+      cases hc : curStream s with
+      | none => simp [hc] at hopen
+      | some k =>
+        simp only [hc] at hopen
+        have hlive : streamLive s k = true := hopen
+        cases hk : s.streams[k]? with
+        | none => simp [streamLive, hk] at hlive
+        | some st =>
+          have hl : st.live = true := by simpa [streamLive, hk] using hlive
+          have hcnt : st.counted = true := by
+            have := h.k22 how
+            simp only [List.all_eq_true] at this
+            have := this st (List.mem_of_getElem? hk)
+            simpa [hl] using this
+          have := liveCounted_pos s k (by simp [streamLiveCounted, hk, hl, hcnt])
+          omega
+  have hurr : s.urr = true := by
+    rcases hlc with h0 | h1
+    · omega
+    · exact h1.1
+  simp only [processDone, Bool.or_eq_false_iff] at hpd
+  exact ⟨hcl, how, hrst, hurr, hpos, hpd.2, hpd.1.2⟩
+
 /-- after `cleanStream` no label changes the trace (nor un-cleans the stream) -/
 theorem trace_frozen (c : Cfg) (ar aq : Nat) (s : S) (l : Label) (h : Inv c ar aq s) (hcl : s.cleaned = true) :
     (step c s l).trace = s.trace ∧ (step c s l).cleaned = true := by
@@ -54,6 +250,38 @@ theorem trace_frozen (c : Cfg) (ar aq : Nat) (s : S) (l : Label) (h : Inv c ar a
   | work => simp [step, work, hrun, hcl]
   | upResp k code d t =>
     simp only [step, upResp]
+    cases hk : s.streams[k]? with
+    | none => exact ⟨rfl, hcl⟩
+    | some st =>
+      simp only
+      split
+      · exact ⟨rfl, hcl⟩
+      · split
+        · exact ⟨rfl, hcl⟩
+        · exact ⟨rfl, hcl⟩
+  | upRespS k code d t =>
+    simp only [step, upRespS, upResp]
+    split
+    · cases hk : s.streams[k]? with
+      | none => exact ⟨rfl, hcl⟩
+      | some st =>
+        simp only
+        split
+        · exact ⟨rfl, hcl⟩
+        · split
+          · exact ⟨rfl, hcl⟩
+          · exact ⟨rfl, hcl⟩
+    · cases hk : s.streams[k]? with
+      | none => exact ⟨rfl, hcl⟩
+      | some st =>
+        simp only
+        split
+        · exact ⟨rfl, hcl⟩
+        · split
+          · exact ⟨rfl, hcl⟩
+          · exact ⟨rfl, hcl⟩
+  | upEnd k =>
+    simp only [step, upEndL]
     cases hk : s.streams[k]? with
     | none => exact ⟨rfl, hcl⟩
     | some st =>
@@ -70,8 +298,10 @@ theorem trace_frozen (c : Cfg) (ar aq : Nat) (s : S) (l : Label) (h : Inv c ar a
       split
       · exact ⟨rfl, hcl⟩
       · split
-        · simp [upOnResetStream, hcl]
         · exact ⟨rfl, hcl⟩
+        · split
+          · simp [upOnResetStream, hcl]
+          · exact ⟨rfl, hcl⟩
   | poolFail f => exact ⟨rfl, hcl⟩
   | hostsGone => exact ⟨rfl, hcl⟩
   | perTryFire => simp [step, perTryFire, hpt, hcl]
@@ -135,7 +365,7 @@ theorem timeout_step1 (c : Cfg) (g : S) (hrun : g.running = true) (hp : g.phase 
     (how : c.oneway = false) (hdr : g.downReset = false) (hrst : g.respStarted = false) (hps : g.pass = 0) :
     work c g = hijackState c { g with notify := false } .UpstreamGlobalTimeout := by
   unfold work
-  rw [if_neg (by simp [hrun])]
+  rw [if_neg (by simp [hrun]), if_neg (by simp [bodyWait, hp])]
   split
   all_goals first
     | (rename_i hh; rw [hp] at hh; exact absurd hh (by decide))
@@ -147,10 +377,10 @@ theorem timeout_step1 (c : Cfg) (g : S) (hrun : g.running = true) (hp : g.phase 
       sendHijack { orFlag (cleanUp c { g with notify := false }) (reasonToFlag .UpstreamGlobalTimeout) with upReset := false }
         (reasonToCode .UpstreamGlobalTimeout) false := by
     unfold onUpstreamReset
-    simp only [hrr]
+    simp only [retryGate_eq, hrr]
     rw [if_neg (by simp)]
     unfold onUpstreamResetFinish
-    simp only [cleanUp_respStarted, hrst, Bool.false_eq_true, if_false]
+    simp only [resetNotReply_eq, cleanUp_respStarted, hrst, Bool.false_eq_true, if_false]
   rw [e1]
   unfold peTail
   rw [if_neg (by simp [sendHijack, orFlag, hdr]), if_pos (by simp [sendHijack])]
@@ -167,7 +397,7 @@ theorem timeout_step2 (c : Cfg) (h1 : S) (hrun : h1.running = true) (hp : h1.pha
     (hsr : h1.setupRetry = false) (hpd : h1.procDone = false) (hup : h1.up.isSome = true) :
     work c h1 = { h1 with phase := .UpRecvHeader } := by
   unfold work
-  rw [if_neg (by simp [hrun])]
+  rw [if_neg (by simp [hrun]), if_neg (by simp [bodyWait, hp])]
   split
   all_goals first
     | (rename_i hh; rw [hp] at hh; exact absurd hh (by decide))
@@ -194,7 +424,7 @@ theorem timeout_step3 (c : Cfg) (h2 : S) (code : Nat) (hrun : h2.running = true)
     (work c h2).cleaned = true ∧ (work c h2).running = false ∧
     (work c h2).trace = (h2.trace ++ [Ev.dh code true]) ++ [Ev.log h2.respCode h2.flags] := by
   unfold work
-  rw [if_neg (by simp [hrun])]
+  rw [if_neg (by simp [hrun]), if_neg (by simp [bodyWait, hp])]
   split
   all_goals first
     | (rename_i hh; rw [hp] at hh; exact absurd hh (by decide))
@@ -280,7 +510,7 @@ theorem terminate_step1 (c : Cfg) (g : S) (hrun : g.running = true) (hp : g.phas
     work c g = { g with direct := false, rs := none, retries := (rsReset c g).retries, pass := 1, phase := .UpFilter,
                         notify := false } := by
   unfold work
-  rw [if_neg (by simp [hrun])]
+  rw [if_neg (by simp [hrun]), if_neg (by simp [bodyWait, hp])]
   split
   all_goals first
     | (rename_i hh; rw [hp] at hh; exact absurd hh (by decide))
